@@ -250,7 +250,7 @@ def curated():
     # the same file analysed with two different bead rows (and once without calibration), same units
     out.append(dict(instruments=[i1],
                     files={'beads1.fcs': dict(kind='beads', instrument='I1', seed=31), 'beads2.fcs': dict(kind='beads', instrument='I1', seed=32),
-                           'c1.fcs': cells('I1', 33), 'c2.fcs': dict(cells('I1', 34, 'F'), timestep='0'), 'c3.fcs': cells('I1', 36, 'F'), 'c4.fcs': cells('I1', 37, 'F'),
+                           'c1.fcs': cells('I1', 33), 'c2.fcs': dict(cells('I1', 34, 'F'), timestep='0'), 'c3.fcs': cells('I1', 36, 'D'), 'c4.fcs': cells('I1', 37, 'F'),
                            'c5.fcs': dict(cells('I1', 38), n=400)},
                     beads=[dict(id='B1', instrument='I1', file='beads1.fcs', gate_fraction=0.3, clustering=['FL1-H'], mef={'FL1-H': lad(1)}),
                            dict(id='B2', instrument='I1', file='beads2.fcs', gate_fraction=0.3, clustering=['FL1-H', 'FL2-H'],
